@@ -69,6 +69,12 @@ func (e *mapEnv) emitEffects() {
 	e.rec.Reset()
 }
 
+// snap: every slab of the map as the storage serves it now + the exact pending write set (taken
+// immediately before and after a request that is rejected).
+func (e *mapEnv) snap() string {
+	return hx.DumpTree(e.ps, atree.VerifMapRoot(e.m)) + "\n" + deltaKeys(e.ps)
+}
+
 func (e *mapEnv) dispose(s atree.Storable) {
 	if id, ok := s.(atree.SlabIDStorable); ok {
 		e.w.L("DSP id=%s", hx.IDStr(atree.SlabID(id)))
@@ -164,6 +170,9 @@ func mapStreamX(cfg *Config, name string, collide bool) *hx.Stats {
 		if e.persist {
 			mode = []int{0, 0, 2, 3}[p%4] // a reload needs a digester a fresh handle can rebuild: real, or the same table
 		}
+		if collide && !e.persist && p%4 == 1 {
+			mode = 4 // every run refuses inserts at a small collision limit (C12, C18), whatever the seed
+		}
 		valProf, opProf := rng.Intn(5), rng.Intn(3)
 		if collide && !e.persist && p%4 == 0 {
 			// external collision groups of LARGE elements that collapse back to a single element:
@@ -184,6 +193,9 @@ func mapStreamX(cfg *Config, name string, collide bool) *hx.Stats {
 	}
 	st.TraceLines = w.Lines
 	st.Distinct = len(seen)
+	if name == "mapcollide" && cfg.Scale >= 1 && st.HarnessErr == "" && len(st.Violations) == 0 && st.Dist["collision-limit-refused"] == 0 {
+		st.HarnessErr = "mapcollide: no insert was refused at the collision limit"
+	}
 	atree.VerifSetThreshold(1024)
 	atree.VerifSetMaxCollisionLimitPerDigest(255)
 	return st
@@ -365,12 +377,20 @@ func runMapProgram(e *mapEnv, nOps, mode, valProf, opProf int) {
 		switch op {
 		case "set":
 			v := e.genValue(valProf)
+			snapBefore := ""
+			if !present && e.climit < 255 {
+				// may be refused: the tree and the pending write set immediately before the request
+				snapBefore = e.snap()
+			}
 			w.L("OP mset h=0 k=%s v=%d:%d", e.keyStr(k), v.Size, v.Pay)
 			old, err := e.m.Set(hx.CompareKey, e.hip, k, v)
 			if err != nil {
 				w.L("OBS err:%s", hx.ErrKind(err))
 				if hx.ErrKind(err) == "CollisionLimit:Fatal" {
 					e.st.Hit("collision-limit-refused")
+					if snapBefore != "" && e.snap() != snapBefore {
+						e.violation("C18", fmt.Sprintf("insert of %v refused with the collision limit changed the map or the pending write set", k))
+					}
 					if present {
 						e.violation("C12", fmt.Sprintf("update of existing key %v refused with collision limit", k))
 					}
@@ -396,16 +416,26 @@ func runMapProgram(e *mapEnv, nOps, mode, valProf, opProf int) {
 				e.shadow[k] = v
 			}
 			e.emitEffects()
+			if err != nil {
+				w.L("FULL h=0 %s", hx.DumpTree(e.ps, atree.VerifMapRoot(e.m)))
+			}
 			if err == nil && old != nil {
 				e.dispose(old)
 			}
 		case "rem":
+			snapBefore := ""
+			if !present {
+				snapBefore = e.snap()
+			}
 			w.L("OP mrem h=0 k=%s", e.keyStr(k))
 			ks, vs, err := e.m.Remove(hx.CompareKey, e.hip, k)
 			if err != nil {
 				w.L("OBS err:%s", hx.ErrKind(err))
 				if present || hx.ErrKind(err) != "KeyNotFound:User" {
 					e.violation("C02", fmt.Sprintf("remove(%v) failed with %s (present=%v)", k, hx.ErrKind(err), present))
+				}
+				if snapBefore != "" && e.snap() != snapBefore {
+					e.violation("C18", fmt.Sprintf("remove of the absent key %v changed the map or the pending write set", k))
 				}
 				if len(e.rec.Effs) != 0 {
 					e.violation("C18", "rejected remove touched storage: "+hx.NetEffect(e.rec.Effs))
@@ -422,6 +452,9 @@ func runMapProgram(e *mapEnv, nOps, mode, valProf, opProf int) {
 				delete(e.shadow, k)
 			}
 			e.emitEffects()
+			if err != nil {
+				w.L("FULL h=0 %s", hx.DumpTree(e.ps, atree.VerifMapRoot(e.m)))
+			}
 			if err == nil {
 				e.dispose(vs)
 			}
